@@ -67,8 +67,10 @@ impl Generator {
         // at this point, stack has no MARKs, just regular items
         // keep combining until we have exactly 1 item
         // use TUPLE2/TUPLE3 which don't require MARKs
+        // every round removes at least one item, so the initial depth bounds the rounds
+        let max_rounds = self.state.stack.len();
         let mut safety_counter = 0;
-        while self.state.stack.len() > 1 && safety_counter < 10000 {
+        while self.state.stack.len() > 1 && safety_counter < max_rounds {
             safety_counter += 1;
 
             let stack_len = self.state.stack.len();
